@@ -37,6 +37,7 @@ type cfg struct {
 	MaxReq   int
 	Elapsed  time.Duration // -1 = retries disabled
 	DynHdr   bool
+	Dyn2     bool // two dynamic-header names (region, service); series with both, with one of them twice, with one, with none
 	Failures int  // failure budget of the upstream
 	BadUTF8  bool // dispatcher 0 sends a tag with invalid UTF-8
 	Ticks    int
@@ -52,13 +53,14 @@ func (c cfg) per() int {
 }
 
 func (c cfg) String() string {
-	return fmt.Sprintf("D%d-B%d-s%d-m%d-r%d-el%v-dyn%v-f%d-bad%v-t%d-z%v", c.D, c.Batches, c.Slots, c.Merge, c.MaxReq, c.Elapsed, c.DynHdr, c.Failures, c.BadUTF8, c.Ticks, c.Compress)
+	return fmt.Sprintf("D%d-B%d-s%d-m%d-r%d-el%v-dyn%v%v-f%d-bad%v-t%d-z%v-p%d", c.D, c.Batches, c.Slots, c.Merge, c.MaxReq, c.Elapsed, c.DynHdr, c.Dyn2, c.Failures, c.BadUTF8, c.Ticks, c.Compress, c.PerBatch)
 }
 
 type attempt struct {
 	body    string // canonical content
 	names   []string
 	region  string
+	service string
 	outcome int // 0 ok, 1 5xx, 2 transport error
 	at      time.Time
 }
@@ -116,7 +118,7 @@ func (u upstream) RoundTrip(req *http.Request) (*http.Response, error) {
 			u.r.failsLeft--
 		}
 	}
-	u.r.attempts = append(u.r.attempts, attempt{strings.Join(parts, ";"), names, req.Header.Get("region"), o, u.r.mock.Now()})
+	u.r.attempts = append(u.r.attempts, attempt{strings.Join(parts, ";"), names, req.Header.Get("region"), req.Header.Get("service"), o, u.r.mock.Now()})
 	switch o {
 	case 1:
 		return &http.Response{StatusCode: 503, Status: "503", Header: http.Header{}, Body: io.NopCloser(strings.NewReader("busy")), Request: req}, nil
@@ -145,6 +147,9 @@ func body(c cfg, r *run) func(*vsched.Exec) {
 		if c.DynHdr {
 			dyn = []string{"region"}
 		}
+		if c.Dyn2 {
+			dyn = []string{"region", "service"}
+		}
 		h, err := statsd.NewHttpForwarderHandlerV2(fx.Quiet(), "default", "http://up.invalid", c.Slots, c.MaxReq, c.Merge, c.Compress, "lz4", 0, c.Elapsed, time.Second, nil, dyn, pool, nil)
 		if err != nil {
 			panic(err)
@@ -161,6 +166,9 @@ func body(c cfg, r *run) func(*vsched.Exec) {
 						tags := gostatsd.Tags{}
 						if c.DynHdr {
 							tags = append(tags, []string{"region:us", "region:eu", "other:x"}[(d+b+k)%3])
+						}
+						if c.Dyn2 {
+							tags = append(tags, dyn2Tags[(d+b+k)%len(dyn2Tags)]...)
 						}
 						if c.BadUTF8 && d == 0 {
 							tags = append(tags, "bad:\xff\xfe")
@@ -334,6 +342,29 @@ func check(c cfg, r *run, outcomes map[string]struct{}) func(*vsched.Exec, vsche
 				}
 			}
 		}
+		if c.Dyn2 {
+			for _, a := range r.attempts {
+				for _, n := range a.names {
+					var d, b, k int
+					fmt.Sscanf(n, "d%db%dk%d", &d, &b, &k)
+					for hn, got := range map[string]string{"region": a.region, "service": a.service} {
+						var vals []string
+						for _, t := range dyn2Tags[(d+b+k)%len(dyn2Tags)] {
+							if strings.HasPrefix(t, hn+":") {
+								vals = append(vals, strings.TrimPrefix(t, hn+":"))
+							}
+						}
+						ok := len(vals) == 0 && got == ""
+						for _, v := range vals {
+							ok = ok || got == v
+						}
+						if !ok {
+							return "wrong-dynamic-header", fmt.Sprintf("series %s (tags %v) travelled in a request with header %s=%q; its %s tag values are %v", n, dyn2Tags[(d+b+k)%len(dyn2Tags)], hn, got, hn, vals)
+						}
+					}
+				}
+			}
+		}
 		// everything dispatched must be in exactly one body by the end
 		r.viol = ""
 		r.checkDelivered(r.ticksDone)
@@ -360,6 +391,8 @@ func check(c cfg, r *run, outcomes map[string]struct{}) func(*vsched.Exec, vsche
 	}
 }
 
+var dyn2Tags = [][]string{{"region:a", "region:b", "service:x"}, {"service:y", "other:x"}, {"region:a", "service:x"}, {"other:x"}}
+
 func configs() []cfg {
 	cs := []cfg{
 		{D: 2, Batches: 1, Slots: 1, Merge: 1, MaxReq: 1, Elapsed: 3 * time.Second, Failures: 1, Ticks: 2},
@@ -367,6 +400,7 @@ func configs() []cfg {
 		{D: 1, Batches: 2, Slots: 1, Merge: 1, MaxReq: 1, Elapsed: 3 * time.Second, Failures: 5, Ticks: 1},
 		{D: 2, Batches: 1, Slots: 2, Merge: 1, MaxReq: 2, Elapsed: 3 * time.Second, DynHdr: true, Failures: 0, Ticks: 2},
 		{D: 2, Batches: 1, Slots: 1, Merge: 1, MaxReq: 1, Elapsed: 3 * time.Second, BadUTF8: true, Failures: 0, Ticks: 2},
+		{D: 1, Batches: 1, PerBatch: 4, Slots: 1, Merge: 1, MaxReq: 2, Elapsed: 3 * time.Second, Dyn2: true, Failures: 0, Ticks: 1},
 		// two compressed bodies of one flush in flight together, one of them retried
 		{D: 1, Batches: 1, PerBatch: 2, Slots: 1, Merge: 1, MaxReq: 2, Elapsed: 3 * time.Second, DynHdr: true, Failures: 1, Ticks: 1, Compress: true},
 	}
